@@ -92,6 +92,7 @@ class Native:
         and every string reachable from the arguments of the current case."""
         uni: dict[str, dict[int, Any]] = {}
         strs: dict[str, None] = {}
+        ints: dict[int, None] = {0: None}
         sets: dict[Any, None] = {}
         seen: set[int] = set()
 
@@ -104,6 +105,9 @@ class Native:
                 return
             if isinstance(x, str):
                 strs[x] = None
+            elif isinstance(x, int) and not isinstance(x, bool):
+                ints[x] = None
+                ints[x + 1] = None
             elif isinstance(x, dict):
                 if type(x) is not dict:  # a dict subclass is also an object of its class (e.g. EventSet)
                     uni.setdefault(type(x).__name__, {})[id(x)] = x
@@ -124,6 +128,7 @@ class Native:
         walk(args)
         self.universe = {k: list(v.values()) for k, v in uni.items()}
         self.universe["str"] = list(strs)
+        self.universe["int"] = list(ints)[:200]
         self.universe["Any"] = list(strs)
         self.universe["set[Any]"] = list(sets)
 
@@ -266,7 +271,7 @@ class Native:
             pre_uni = self.universe
             self.collect_universe([args, result])
             for tname, objs in pre_uni.items():
-                byval = tname in ("str", "Any", "set[Any]")
+                byval = tname in ("str", "Any", "set[Any]", "int")
                 have = set(self.universe.get(tname, [])) if byval else {id(o) for o in self.universe.get(tname, [])}
                 for o in objs:
                     if (o if byval else id(o)) not in have:
